@@ -26,6 +26,7 @@ PROPS = {
     "C12": {
         "level": "exploration",
         "hang_is_violation": True,
+        "crash_is_violation": True,
         "units": [U("limitl", "TestC12", q(40000), q(400000, 16))],
         "assumptions": [BUBBLE, RAPID, "timing clauses are asserted for an always-ready consumer, and, with all data up-front, for a consumer that pauses a fixed d before every receive with Q*d <= I (bound floor(i/Q)*I + (min(Q,N)+1)*d)"],
     },
